@@ -280,6 +280,7 @@ def main():
            ("[\\x7f-\\xff]", set(range(0x7f, 0x100)), False), ("[\\x00-\\x20]", set(range(0, 0x21)), False)]
     def fold(st):
         return st | {c ^ 0x20 for c in st if chr(c).isalpha() and c < 128}
+    CLS += [(".", {0x0a}, True)]                     # the dot: everything but the line feed (with /s: everything)
     for (csrc, cset, neg) in CLS:
         for icase in (False, True):
             st = fold(cset) if icase else cset
@@ -288,6 +289,15 @@ def main():
             M = "B 6d ff 0" if not icase else cls_hex({ord("m"), ord("M")})
             astp = ". %s . %s %s" % (K, ast_c, M)
             src = "k" + csrc + "m"
+            if not icase:
+                # the same class INSIDE a four-byte atom (kk<class>m) and right after / before one (kkmm<class>, <class>kkmm): wildcard atoms are expanded over all byte values
+                for (pre, post) in (("kk", "m"), ("kkmm", ""), ("", "kkmm")):
+                    parts = ["B %02x ff 0" % ord(ch) for ch in pre] + [ast_c] + ["B %02x ff 0" % ord(ch) for ch in post]
+                    a2 = " ".join(". " + p_ for p_ in parts[:-1]) + " " + parts[-1]
+                    clsj.append(prog(pid(), pre + csrc + post, a2, "s", "", "", "class-range:in-atom"))
+                if csrc == ".":
+                    a3 = ". B 6b ff 0 . B 6b ff 0 . %s B 6d ff 0" % cls_hex(set(range(256)))
+                    clsj.append(prog(pid(), "kk.m", a3, "s", "", "s", "class-range:in-atom:/s"))
             if icase:
                 clsj.append(prog(pid(), src, astp, "s", "", "i", "class-range:/i"))
                 clsj.append(prog(pid(), src, astp, "s", "nocase", "", "class-range:nocase"))
@@ -295,7 +305,7 @@ def main():
             else:
                 clsj.append(prog(pid(), src, astp, "s", "", "", "class-range"))
                 clsj.append(prog(pid(), src, astp, "m", "", "", "class-range"))
-    sp_cls = ["B list " + " ".join((pre + bytes([c]) + post).hex() for c in range(256) for (pre, post) in ((b"k", b"m"), (b"K", b"M"), (b"-k", b"m-")))]
+    sp_cls = ["B list " + " ".join((pre + bytes([c]) + post).hex() for c in range(256) for (pre, post) in ((b"k", b"m"), (b"K", b"M"), (b"-k", b"m-"), (b"kk", b"m"), (b"kkmm", b""), (b"", b"kkmm"), (b"-kk", b"m-")))]
     lb = 5 if quick else 6
     sp_main = ["B all %s %d" % (ALPHA.hex(), lb)]
     sp4 = ["B all %s %d" % (ALPHA.hex(), 4 if quick else 5)]
